@@ -33,16 +33,28 @@ def main():
             if m:
                 states[m.group(1)] = m.group(2) if m.group(2) == "silent" else "%s %s" % (m.group(2), m.group(3)[:200])
         bad = {k: v for k, v in states.items() if v != "silent"}
-        out[name] = {"checks_run": sorted(states), "all_silent": not bad and bool(states), "not_silent": bad}
+        alarms = {k: v for k, v in bad.items() if not v.startswith("inconclusive")}
+        out[name] = {"checks_run": sorted(states), "all_silent": not bad and bool(states), "alarms": alarms,
+                     "inconclusive": sorted(k for k, v in bad.items() if v.startswith("inconclusive")), "not_silent": bad}
         print("%s all_silent=%s %s" % (name, out[name]["all_silent"], bad or ""), flush=True)
+        write(out, props, t0, False)
+    res = write(out, props, t0, True)
+    print("no check alarmed on any change: %s; inconclusive: %s (%d changes, %ds)" % (
+        res["no_check_alarmed_on_any_change"], res["inconclusive"] or "none", len(out), res["wall_s"]))
+    return 0
+
+
+def write(out, props, t0, complete):
     head = subprocess.run(["git", "-C", VERIF, "rev-parse", "--short", "HEAD"], capture_output=True, text=True).stdout.strip()
     res = {"verif_commit": head, "tier": "quick", "seed": os.environ.get("VERIF_SEED", "default"), "wall_s": round(time.time() - t0),
-           "changes": out, "every_check_silent_on_every_change": all(v["all_silent"] for v in out.values())}
+           "complete": complete, "changes": out,
+           "no_check_alarmed_on_any_change": all(not v["alarms"] and v["checks_run"] for v in out.values()),
+           "inconclusive": {k: v["inconclusive"] for k, v in out.items() if v["inconclusive"]},
+           "every_check_silent_on_every_change": all(v["all_silent"] for v in out.values())}
     name = "SWEEP.json" if not props else "SWEEP.%s.json" % "-".join(props)
     with open(os.path.join(VERIF, "benign", name), "w") as fh:
         json.dump(res, fh, indent=1)
-    print("every check silent on every change: %s (%d changes, %ds)" % (res["every_check_silent_on_every_change"], len(out), res["wall_s"]))
-    return 0
+    return res
 
 
 if __name__ == "__main__":
